@@ -119,3 +119,59 @@ unit({
         {'file': 'src/Stream/Reader.h', 'qual': 'Read', 'inclass': 'Reader', 'ordinal': 0, 'cls': 'Rd', 'cname': 'Reader_Read', 'members': {}},
     ],
 })
+
+# --------------------------------------------------------------------------- shared map types
+def VIEW(name, elem):
+    return 'typedef struct %s { %s* data; size_t size; } %s;' % (name, elem, name)
+STR_VIEW = 'typedef struct str { char* data; size_t size; } str;'
+MAP_TYPEMAP = {
+    'CellType': 'CellType', 'Tile': 'Tile', 'Rect': 'Rect', 'TileMapping': 'TileMapping', 'TerrainType': 'TerrainType', 'Range16': 'Range16',
+    'TilesetSource': 'TilesetSource', 'TileGroup': 'TileGroup', 'MapHeader': 'MapHeader', 'Map': 'Map',
+    'std::string': 'str', 'std::vector<uint32_t>': 'vec_u32', 'std::vector<Tile>': 'vec_Tile', 'std::vector<TilesetSource>': 'vec_TilesetSource',
+    'std::vector<TileMapping>': 'vec_TileMapping', 'std::vector<TerrainType>': 'vec_TerrainType', 'std::vector<TileGroup>': 'vec_TileGroup',
+}
+MAP_STRUCTS = [
+    ('src/Rect.h', 'Rect', {'packed': True}),
+    ('src/Map/Tile.h', 'Tile', {'packed': True}),
+    ('src/Map/TileMapping.h', 'TileMapping', {'packed': True}),
+    ('src/Map/TerrainType.h', 'Range16', {'packed': True}),
+    ('src/Map/TerrainType.h', 'TerrainType', {'packed': True}),
+    STR_VIEW, VIEW('vec_u32', 'uint32_t'),
+    ('src/Map/TilesetSource.h', 'TilesetSource', {'packed': True}),
+    ('src/Map/TileGroup.h', 'TileGroup'),
+    ('src/Map/MapHeader.h', 'MapHeader', {'packed': True}),
+    VIEW('vec_Tile', 'Tile'), VIEW('vec_TilesetSource', 'TilesetSource'), VIEW('vec_TileMapping', 'TileMapping'),
+    VIEW('vec_TerrainType', 'TerrainType'), VIEW('vec_TileGroup', 'TileGroup'),
+    ('src/Map/Map.h', 'Map'),
+]
+MAP_VIEWS = [(r'self->tiles', 'vec'), (r'self->tileMappings', 'vec'), (r'self->tilesetSources', 'vec'), (r'self->terrainTypes', 'vec'), (r'self->tileGroups', 'vec')]
+
+# --------------------------------------------------------------------------- U-MAPH
+MC = 'src/Map/Map.cpp'
+def _mp(name, **kw):
+    d = {'file': MC, 'qual': 'Map::' + name, 'cls': 'Map', 'cname': 'Map_' + name}
+    d.update(kw); return d
+def _mh(name, **kw):
+    d = {'file': 'src/Map/MapHeader.h', 'qual': name, 'inclass': 'MapHeader', 'cls': 'MapHeader', 'cname': 'MapHeader_' + name}
+    d.update(kw); return d
+unit({
+    'name': 'maph',
+    'typemap': MAP_TYPEMAP,
+    'enums': [('src/Map/CellType.h', 'CellType')],
+    'structs': MAP_STRUCTS,
+    'scoped': {'CellType': 'CellType', 'MapHeader': 'MapHeader'},
+    'views': MAP_VIEWS,
+    'calls': {
+        'GetTileIndex': N('Map_GetTileIndex'),
+        'GetTileMappingIndex': N('Map_GetTileMappingIndex'),
+    },
+    'functions': [
+        {'file': 'src/Map/MapHeader.cpp', 'qual': 'MapHeader::MapHeader', 'cls': 'MapHeader', 'cname': 'MapHeader_ctor', 'ctor': True},
+        _mh('WidthInTiles'), _mh('TileCount'), _mh('VersionTagValid'),
+        _mp('Map', cname='Map_ctor', ctor=True),
+        _mp('GetTileIndex', autos={'lowerX': 'size_t', 'upperX': 'size_t'}),
+        _mp('GetTileMappingIndex'), _mp('GetCellType'), _mp('SetCellType'), _mp('GetLavaPossible'), _mp('SetLavaPossible'),
+        _mp('GetTilesetIndex'), _mp('GetImageIndex'),
+        _mp('CheckMinVersionTag', static=True),
+    ],
+})
